@@ -128,6 +128,7 @@ pub fn gen_from_seed(gseed: u64, with_bug: bool, r: &mut Rng, scale: usize) -> B
                 "link-chain" => *r.pick(&[6usize, 7, 8, 9, 10, 11, 40, 41, 42, 43, 46, 47, 700, 702]),
                 "many-palette-packets" => *r.pick(&[3usize, 300, 2000]),
                 "userdata-props-deep" => *r.pick(&[1usize, 2, 3, 40, 41, 42, 4000, 4001, 4002]),
+                "bomb-plus-error" => *r.pick(&[16usize, 17, 24, 25]),
                 "bomb-with-links" => *r.pick(&[1usize, 2]),
                 _ => 1,
             }
@@ -619,6 +620,9 @@ fn special_items(ctx: &Ctx, prop: &str) -> Vec<(String, usize)> {
             for n in if q { vec![8usize, 40] } else { vec![8, 40, 80, 200] } {
                 v.push(("indexed-bomb-missing-index".into(), n));
             }
+            for n in if q { vec![48usize, 49, 49, 64, 65, 65] } else { vec![32, 33, 48, 49, 49, 49, 64, 65, 65, 65, 80, 81, 81, 81] } {
+                v.push(("bomb-plus-error".into(), n));
+            }
             for n in if q { vec![4usize, 8] } else { vec![4, 8, 16, 32] } {
                 v.push(("tileset-bomb".into(), n));
                 v.push(("tileset-bomb".into(), n));
@@ -689,7 +693,7 @@ fn special_items(ctx: &Ctx, prop: &str) -> Vec<(String, usize)> {
                 }
             }
             for b in spec::BUGS {
-                if !matches!(*b, "deep-nesting" | "deep-nesting-closed" | "many-layers" | "many-tags" | "many-frames-high-layer" | "deflate-bomb" | "tilemap-huge-extent" | "link-chain" | "bomb-with-links" | "tilemap-bomb-with-links" | "tileset-bomb" | "indexed-bomb-missing-index" | "many-palette-packets" | "chunk-size-boundary" | "zlib-split-a" | "zlib-split-b" | "palette-shift-a" | "palette-shift-b" | "userdata-props-deep") {
+                if !matches!(*b, "deep-nesting" | "deep-nesting-closed" | "many-layers" | "many-tags" | "many-frames-high-layer" | "deflate-bomb" | "tilemap-huge-extent" | "link-chain" | "bomb-with-links" | "tilemap-bomb-with-links" | "tileset-bomb" | "indexed-bomb-missing-index" | "many-palette-packets" | "chunk-size-boundary" | "zlib-split-a" | "zlib-split-b" | "palette-shift-a" | "palette-shift-b" | "userdata-props-deep" | "bomb-plus-error") {
                     for _ in 0..if q { 2 } else { 12 } {
                         v.push((b.to_string(), 1));
                     }
